@@ -20,7 +20,7 @@ TEXT = {
             'a header block under assembly at most CONTINUATION_BACKLOG frames (the proof attempt found defect D49, repaired); '
             'PRIORITY / WINDOW_UPDATE / RST_STREAM / PING / ALTSVC / unknown frames leave the stream table and the closed-stream '
             'memory exactly as they were; an oversized header list is refused with ENHANCE_YOUR_CALM under the acknowledged '
-            'limit. Sizes of the live stream table between cleanups are decided by the oracle on long generated frame '
+            'limit; a closed connection takes no new streams, over any number of deliveries (C27_closed_table_never_grows). Sizes of the live stream table between cleanups are decided by the oracle on long generated frame '
             'sequences.', 'DESIGN.md section 0 (0.3 D49, 0.7) and section 7 C27'),
     'C12': ('Lean 4 theorems over all of Z x Z about _validate_setting and guard_increment_window (regenerated from the source '
             'and proved equal to the reference definitions on every run): the verdict is the RFC\'s for every identifier and '
@@ -59,7 +59,7 @@ TEXT = {
             'reachable state (C29_every_call), and the two races the pair histories exposed are closed (C04_empty_frame_fits, '
             'C20_forgotten_headers). NOT proved: the joint invariant of sender and receiver with the frames in flight; that '
             'each delivery is accepted and the receiver\'s events reproduce the sender\'s calls is decided by oracle_C01 on '
-            'pair histories (random programs and the conversation generator) together with the correspondence check; nine '
+            'pair histories (random programs and the conversation generator) together with the correspondence check; eleven '
             'known findings (known_findings.json) are printed, anything else is a violation.',
             'DESIGN.md section 0 and section 7 C01'),
 }
